@@ -741,6 +741,10 @@ class BGP(protocol.Protocol):
                     del value14['nlri']
                     key = "{"
                     for k in sorted(prefix.keys()):
+                        if k == 'label':
+                            # not part of the route's identity: a withdrawal
+                            # carries 0x800000 instead of the label (RFC 8277)
+                            continue
                         key += '"' + str(k) + '"'
                         key += ':'
                         key += '"' + str(prefix[k]) + '"'
@@ -794,6 +798,10 @@ class BGP(protocol.Protocol):
                 for prefix in attr[15]['withdraw']:
                     key = "{"
                     for k in sorted(prefix.keys()):
+                        if k == 'label':
+                            # not part of the route's identity: a withdrawal
+                            # carries 0x800000 instead of the label (RFC 8277)
+                            continue
                         key += '"' + str(k) + '"'
                         key += ':'
                         key += '"' + str(prefix[k]) + '"'
@@ -841,6 +849,10 @@ class BGP(protocol.Protocol):
                     del value14['nlri']
                     key = "{"
                     for k in sorted(prefix.keys()):
+                        if k == 'label':
+                            # not part of the route's identity: a withdrawal
+                            # carries 0x800000 instead of the label (RFC 8277)
+                            continue
                         key += '"' + str(k) + '"'
                         key += ':'
                         key += '"' + str(prefix[k]) + '"'
@@ -881,6 +893,10 @@ class BGP(protocol.Protocol):
                 for prefix in attr[15]['withdraw']:
                     key = "{"
                     for k in sorted(prefix.keys()):
+                        if k == 'label':
+                            # not part of the route's identity: a withdrawal
+                            # carries 0x800000 instead of the label (RFC 8277)
+                            continue
                         key += '"' + str(k) + '"'
                         key += ':'
                         key += '"' + str(prefix[k]) + '"'
